@@ -18,6 +18,9 @@
      t_lin / p_pushed     ghost: (thread, message) in the order of the critical sections / of the pushes
      sent_by t lin        the messages of thread t in lin, in order;  norm = set_eob true (write_batch clears the
                           end_of_batch flag of all but the last message of a vector; nothing else is changed)
+     call                 CSend = send(Message*, ..), CSendRef = send(Message&, ..) (the by-reference overload), CBatch =
+                          send_batch: ALL public send entry points; in pm_thread each is one critical section of _con_spl
+     progs_okp            progs_ok without CSendRef (it throws while pipelining: nothing is submitted)
      progs_ok             every submitted message is plain (no custom sequence number / no_increment / SequenceReset,
                           MsgSeqNum and PossDupFlag not preset, SOH- and NUL-free values, schema admin flag = session-
                           level type) and has end_of_batch at its default
@@ -70,7 +73,7 @@ Print Assumptions c25_threaded.
 Theorem c25_pipelined : forall (sc : schema) (now : Z),
   wf_schema sc = true -> nonul (sc_begin sc) = true ->
   forall (s0 : sess) (progs : list (list call)) (sched : list actor),
-  good s0 -> s_batch s0 = [] -> progs_ok sc progs ->
+  good s0 -> s_batch s0 = [] -> progs_okp sc progs ->
   let c := prun sc now sched (pinit s0 progs) in
   map snd (p_pushed c) = (p_popped c ++ p_queue c)%list /\
   (exists pend out,
@@ -144,7 +147,7 @@ Print Assumptions c25_oracle_threaded.
 Theorem c25_oracle_pipelined : forall (sc : schema) (now : Z),
   wf_schema sc = true -> nonul (sc_begin sc) = true ->
   forall (s0 : sess) (progs : list (list call)) (sched : list actor),
-  good s0 -> s_batch s0 = [] -> progs_ok sc progs -> Forall sorted_out (all_msgs progs) -> distinct (subm progs) ->
+  good s0 -> s_batch s0 = [] -> progs_okp sc progs -> Forall sorted_out (all_msgs progs) -> distinct (subm progs) ->
   let c := prun sc now sched (pinit s0 progs) in
   quiescent c = true ->
   exists wire,
@@ -177,18 +180,19 @@ Print Assumptions c25_after_start.
    order and a Heartbeat).  Under the pipelined schedule d_sched_pipe the second thread's order is queued INSIDE the
    first thread's batch (queue order a, x, b, c, heartbeat with end_of_batch false, true, false, true, true): the wire
    carries 2, 3, 4, 5, 6, the four application messages are stored under 2..5, nothing stays buffered, the calls
-   return 3 and 1, 1.  Under the threaded schedule [1; 0; 1] the batch is one critical section. *)
+   return 3 and 1, 1.  Under the threaded schedule [1; 0; 1] the batch is one critical section and thread 1 uses the
+   by-reference overload. *)
 Theorem c25_nonvacuous :
   wf_schema demo_schema = true /\ nonul (sc_begin demo_schema) = true /\
-  good d_s0 /\ s_batch d_s0 = [] /\ progs_ok demo_schema d_progs /\ s_next_send d_s0 = 2 /\
+  good d_s0 /\ s_batch d_s0 = [] /\ progs_okp demo_schema d_progs /\ progs_ok demo_schema d_progs_ref /\ s_next_send d_s0 = 2 /\
   (let c := prun demo_schema T0 d_sched_pipe (pinit d_s0 d_progs) in
    quiescent c = true /\
    map (fun m => (m_body m, m_eob m)) (p_popped c) =
      [(m_body (d_o 97), false); (m_body (d_o 120), true); (m_body (d_o 98), false); (m_body (d_o 99), true); (m_body d_hb, true)] /\
    map fst (p_pushed c) = [0; 1; 0; 0; 1]%nat /\
    seqs_of (p_wire c) = [2; 3; 4; 5; 6] /\ map fst (p_store (s_per (p_sess c))) = [2; 3; 4; 5] /\
-   s_next_send (p_sess c) = 7 /\ s_batch (p_sess c) = [] /\ map pt_rets (p_threads c) = [[3]; [1; 1]]) /\
-  (let c := trun demo_schema T0 d_sched_thread (tinit d_s0 d_progs) in
+   s_next_send (p_sess c) = 7 /\ s_batch (p_sess c) = [] /\ map pt_rets (p_threads c) = [[Some 3]; [Some 1; Some 1]]) /\
+  (let c := trun demo_schema T0 d_sched_thread (tinit d_s0 d_progs_ref) in
    map fst (t_lin c) = [1; 0; 0; 0; 1]%nat /\ seqs_of (t_wire c) = [2; 3; 4; 5; 6] /\
    map fst (p_store (s_per (t_sess c))) = [2; 3; 4; 5] /\ map tt_rets (t_threads c) = [[3]; [1; 1]]).
 Proof. exact c25_nonvacuous_lemma. Qed.
